@@ -373,6 +373,26 @@ def run(tier: str, seed: int) -> int:
         src = "\n".join(lines + main) + "\n"
         check_program(drv, chk, f"layout:{i}", src, whole.default_opts(inline_functions=r.random() < 0.3, append_version=False), [0.0, 1.0, 2.0, 3.0, 4.0, 7.0],
                       [r.randrange(1 << 30) for _ in range(n_env)], steps, failures, diffs, stats)
+    # an inlined function (single call site: its parameters are other names for the caller's registers, not registers of its own)
+    # that keeps values in locals across calls of a function compiled out of line — the callee must keep clear of all of them
+    for i in range(16 if tier == "quick" else 160):
+        np_, nl, ncall = r.randrange(1, 3), r.randrange(1, 4), r.randrange(2, 4)
+        lines = ["def report(value):", f"    shown = value * {r.choice([100, 2, 7])}", "    db.Setting = shown", ""]
+        params = [f"p{j}" for j in range(np_)]
+        body, locs = [], []
+        for j in range(nl):
+            body.append(f"    v{j} = " + r.choice([f"d{j + 1}.Setting", f"{params[0]} - d{j + 1}.Temperature", f"d{j + 1}.Mode + {j}"]))
+            locs.append(f"v{j}")
+        for c in range(ncall):
+            body.append(f"    report({r.choice(locs + params)})")
+        for j, v in enumerate(locs):
+            body.append(f"    d3.{['Setting', 'Mode', 'On'][j % 3]} = {v}")
+        body.append(f"    d4.Mode = {params[-1]}")
+        lines += [f"def regulate({', '.join(params)}):"] + body + [""]
+        args = [r.choice(["d0.Setting", "d0.Mode + 1", "db.On"]) for _ in params]
+        src = "\n".join(lines + ["while True:", f"    regulate({', '.join(args)})", "    report(1)", "    yield_()"]) + "\n"
+        check_program(drv, chk, f"inlined-caller:{i}", src, whole.default_opts(append_version=False), [0.0, 1.0, 2.0, 3.0, 4.0, 7.0],
+                      [r.randrange(1 << 30) for _ in range(n_env)], steps, failures, diffs, stats)
     # register pressure: many simultaneously live variables, up to and beyond 16
     for k in list(range(10, 22)) * (1 if tier == "quick" else 6):
         names = [f"q{i}" for i in range(k)]
